@@ -594,9 +594,10 @@ def cdist(a, b, p=2.0, compute_mode=None):
         raise ShimUnsupported("batched cdist")
     if p != 2:
         raise ShimUnsupported("cdist p != 2")
-    h = _kernel("cdist")
-    if h is not None:
-        return h(a, b)
+    if isinstance(a, GramOnly):
+        if b is not a:
+            raise GramOnlyRead("cdist(J, other)")
+        return a._cdist()
     if a.shape[1] != b.shape[1]:
         raise RuntimeError("X1 and X2 must have the same number of columns")
     m, n = a.shape[0], b.shape[0]
@@ -639,6 +640,169 @@ def one_hot(t, num_classes=-1):
 
 
 builtins_max = _bi.max
+
+
+# ------------------------------------------------------------------------------- Gram-only matrices
+class GramOnlyRead(Exception):
+    """The code under analysis read an m x n matrix otherwise than through its Gramian / row combinations."""
+
+
+class _GT:
+    def __init__(self, owner):
+        self.owner = owner
+
+
+class GramOnly(Tensor):
+    """Opaque m x n matrix J that answers only: J @ J.T, row norms, pairwise row distances, w @ J, shape,
+    dtype, device, finiteness.  Any other read raises GramOnlyRead.  Running a weighting on it decides
+    properties for ALL matrices with that Gramian (any n >= rank) and at the same time *is* the obligation
+    'the weights only look at the Gramian'."""
+
+    def __init__(self, G, n, dtype=None):
+        m = len(G)
+        self._G = [[_lift(x) for x in r] for r in G]
+        self.shape = Size((m, n))
+        self._strides = (n, 1)
+        self._offset = 0
+        self.kind = "real"
+        self.dtype = dtype or float32
+        self.device = _core.CPU
+        self._storage = _core.Storage([])
+
+    def gram(self):
+        m = self.shape[0]
+        return Tensor._make([self._G[i][j] for i in range(m) for j in range(m)], (m, m), self.dtype)
+
+    def _indices(self):
+        raise GramOnlyRead("entries of J were read")
+
+    def _flat(self):
+        raise GramOnlyRead("entries of J were read")
+
+    def _view(self, *a):
+        raise GramOnlyRead("a view of J was taken")
+
+    @property
+    def T(self):
+        return _GT(self)
+
+    mT = T
+
+    def t(self):
+        return _GT(self)
+
+    def transpose(self, a=None, b=None):
+        return _GT(self)
+
+    def detach(self):
+        return self
+
+    def to(self, *a, **k):
+        return self
+
+    def clone(self):
+        return self
+
+    def __matmul__(self, o):
+        if isinstance(o, _GT) and o.owner is self:
+            return self.gram()
+        raise GramOnlyRead("J @ (something other than J.T)")
+
+    def mm(self, o):
+        return self.__matmul__(o)
+
+    def matmul(self, o):
+        return self.__matmul__(o)
+
+    def __rmatmul__(self, w):
+        if isinstance(w, Tensor) and w.dim() == 1:
+            if w.shape[0] != self.shape[0]:
+                raise RuntimeError(f"size mismatch, got input ({w.shape[0]}), mat ({self.shape[0]}x{self.shape[1]})")
+            if w.dtype is not self.dtype:
+                raise RuntimeError(f"expected m1 and m2 to have the same dtype, but got: {w.dtype} != {self.dtype}")
+            return RowComb(self, w)
+        if isinstance(w, _Arr) and not isinstance(w, Tensor):
+            raise TypeError("unsupported operand type(s) for @: 'numpy.ndarray' and 'Tensor'")
+        raise GramOnlyRead("(something other than a weight vector) @ J")
+
+    def isfinite(self):
+        return Tensor._make([_B(True)], (1, 1), bool, "bool").expand(*self.shape)
+
+    def norm(self, p=2, dim=None, keepdim=False):
+        m = self.shape[0]
+        if p in (2, "fro", None) and dim in (1, -1) and not keepdim:
+            return Tensor._make([self._G[i][i].sqrt() for i in range(m)], (m,), self.dtype)
+        if p in (2, "fro", None) and dim is None:
+            return Tensor._make([_sum([self._G[i][i] for i in range(m)]).sqrt()], (), self.dtype)
+        raise GramOnlyRead("norm of J along columns")
+
+    def _cdist(self):
+        m = self.shape[0]
+        out = []
+        for i in range(m):
+            for j in range(m):
+                out.append(_R(0) if i == j else (self._G[i][i] + self._G[j][j] - self._G[i][j] - self._G[j][i]).sqrt())
+        return Tensor._make(out, (m, m), self.dtype)
+
+    def __iter__(self):
+        raise GramOnlyRead("iteration over the rows of J")
+
+    def __getitem__(self, i):
+        raise GramOnlyRead("indexing J")
+
+    def __repr__(self):
+        return f"GramOnly(shape={tuple(self.shape)})"
+
+
+class RowComb(Tensor):
+    """w @ J for an opaque J: an opaque vector of R^n characterised by its weights."""
+
+    def __init__(self, J, w):
+        self._J, self._w = J, w
+        self.shape = Size((J.shape[1],))
+        self._strides = (1,)
+        self._offset = 0
+        self.kind = "real"
+        self.dtype = J.dtype
+        self.device = _core.CPU
+        self._storage = _core.Storage([])
+
+    def _indices(self):
+        raise GramOnlyRead("entries of w @ J were read")
+
+    _flat = _indices
+
+    def _view(self, *a):
+        raise GramOnlyRead("a view of w @ J was taken")
+
+    def sqnorm(self):
+        w, G = self._w._flat(), self._J._G
+        m = len(w)
+        return _sum([w[i] * w[j] * G[i][j] for i in range(m) for j in range(m)])
+
+    def norm(self, p=2, dim=None, keepdim=False):
+        if p in (2, "fro", None) and dim in (None, 0, -1) and not keepdim:
+            return Tensor._make([self.sqnorm().sqrt()], (), self.dtype)
+        raise GramOnlyRead("norm of w @ J")
+
+    def __mul__(self, c):
+        if isinstance(c, Tensor) and c.numel() == 1 and not isinstance(c, (GramOnly, RowComb)):
+            return RowComb(self._J, self._w * c.reshape(()))
+        if isinstance(c, (_R, builtins_int, builtins_float)):
+            return RowComb(self._J, self._w * c)
+        raise GramOnlyRead("elementwise product with w @ J")
+
+    __rmul__ = __mul__
+
+    def __truediv__(self, c):
+        if isinstance(c, Tensor) and c.numel() == 1:
+            return RowComb(self._J, self._w / c.reshape(()))
+        if isinstance(c, (_R, builtins_int, builtins_float)):
+            return RowComb(self._J, self._w / c)
+        raise GramOnlyRead("elementwise division of w @ J")
+
+    def __repr__(self):
+        return f"RowComb(w={self._w!r})"
 
 
 # ------------------------------------------------------------------------------- randomness
